@@ -415,7 +415,7 @@ def _n_from(args, in_axes):
     for a, ax in zip(args, in_axes):
         if ax is not None:
             leaves = _leaves(a)
-            return int(np.asarray(leaves[0]).shape[0])
+            return int(np.asarray(leaves[0]).shape[ax])
     raise RuntimeError("no mapped axis")
 
 
@@ -430,9 +430,11 @@ def _leaves(a):
     return [a]
 
 
-def _map_spec(s, n):
+def _map_spec(s, n, axis=0):
     if s[0] == "a":
-        return ("a", (n,) + tuple(s[1]), s[2])
+        sh = list(s[1])
+        sh.insert(axis, n)
+        return ("a", tuple(sh), s[2])
     if s[0] == "t":
         return ("t", [_map_spec(x, n) for x in s[1]])
     return s
@@ -448,7 +450,7 @@ class Vmap(Node):
         self.method_form = method_form
         self.children = (inner,)
         self.arg_specs = [
-            _map_spec(s, n) if ax is not None else s for s, ax in zip(inner.arg_specs, self.in_axes)
+            _map_spec(s, n, ax) if ax is not None else s for s, ax in zip(inner.arg_specs, self.in_axes)
         ]
 
     def emit(self, E):
@@ -466,7 +468,10 @@ class Vmap(Node):
         n = _n_from(args, self.in_axes)
         rets = []
         for i in range(n):
-            a_i = tuple(tindex(a, i) if ax is not None else a for a, ax in zip(args, self.in_axes))
+            a_i = tuple(
+                (tindex(a, i) if ax == 0 else np.take(np.asarray(a), i, axis=ax)) if ax is not None else a
+                for a, ax in zip(args, self.in_axes)
+            )
             rets.append(self.inner.ref(env, path + (i,), a_i))
         if n == 0:
             return EMPTY
